@@ -224,3 +224,11 @@ def encode_model(mtree, *, key_map=None, value_map=None, user_meta=None, typed=N
             short[key_map.get(k, k)] = v
         nodes.append([ppos, short])
     return {"meta": meta, "nodes": nodes}
+
+
+def SimStream_from(text: str) -> SimStream:
+    fp = SimStream()
+    fp.write(text)
+    fp.seek(0)
+    fp.writes = 0
+    return fp
